@@ -7,6 +7,7 @@ mod rep;
 mod seal;
 mod wire;
 mod cloudconc;
+mod sqlconc;
 mod store;
 mod task;
 
@@ -714,6 +715,57 @@ fn run_sqlkill(args: &Args) {
     std::fs::write(args.out.join("stats.json"), format!("{{{}}}\n", body.join(", "))).unwrap();
 }
 
+fn run_sqlconc(args: &Args) {
+    std::fs::create_dir_all(&args.out).unwrap();
+    let mut ops = std::io::BufWriter::new(std::fs::File::create(args.out.join("ops.txt")).unwrap());
+    let mut imp = std::io::BufWriter::new(std::fs::File::create(args.out.join("impl.out")).unwrap());
+    let mut stats: std::collections::HashMap<String, u64> = std::collections::HashMap::new();
+    let mut rng = Rng::new(args.seed);
+    // a replayed case is the recorded worker logs and audit: they are re-judged, not re-run (the
+    // schedule that produced them cannot be forced)
+    if let Some(r) = &args.replay {
+        for (hdr, lines) in read_cases(r) {
+            writeln!(ops, "{}", hdr).unwrap();
+            writeln!(imp, "{}", hdr).unwrap();
+            for l in lines {
+                writeln!(ops, "{}", l).unwrap();
+                writeln!(imp, "> {}", l).unwrap();
+            }
+        }
+        return;
+    }
+    for i in 0..args.cases {
+        let mut crng = rng.fork();
+        let hdr = format!("# case {} seed={}", i, args.seed);
+        writeln!(ops, "{}", hdr).unwrap();
+        writeln!(imp, "{}", hdr).unwrap();
+        match std::panic::catch_unwind(std::panic::AssertUnwindSafe(|| sqlconc::run_case(&mut crng, args.max_len))) {
+            Ok(o) => {
+                for l in &o.lines {
+                    writeln!(ops, "{}", l).unwrap();
+                    writeln!(imp, "> {}", l).unwrap();
+                }
+                writeln!(ops, "{}", o.audit_line).unwrap();
+                writeln!(imp, "> {}", o.audit_line).unwrap();
+                for l in &o.audit_out {
+                    writeln!(imp, "{}", l).unwrap();
+                }
+                for (k, v) in o.stats {
+                    *stats.entry(k).or_insert(0) += v;
+                }
+            }
+            Err(_) => {
+                writeln!(imp, "panic").unwrap();
+            }
+        }
+        *stats.entry("cases".into()).or_insert(0) += 1;
+    }
+    let mut keys: Vec<&String> = stats.keys().collect();
+    keys.sort();
+    let body: Vec<String> = keys.iter().map(|k| format!("\"{}\": {}", k, stats[*k])).collect();
+    std::fs::write(args.out.join("stats.json"), format!("{{{}}}\n", body.join(", "))).unwrap();
+}
+
 fn run_wire(args: &Args) {
     std::fs::create_dir_all(&args.out).unwrap();
     let mut ops = std::io::BufWriter::new(std::fs::File::create(args.out.join("ops.txt")).unwrap());
@@ -987,6 +1039,7 @@ fn main() {
         "cloudconc" | "cleanconc" => run_cloudconc(&args),
         "sqlchild" => run_sqlchild(&args),
         "sqlkill" => run_sqlkill(&args),
+        "sqlconc" => run_sqlconc(&args),
         f => {
             eprintln!("unknown family {}", f);
             std::process::exit(2);
